@@ -430,6 +430,11 @@ def h_tree(ctx):
             else:
                 wp = w['parent']['off'] if w['parent'] is not None else top_off
                 ctx.check_eq('tree/%s/parent-first%s' % (sib, '/null' if w['null'] else ''), p.offset if p is not None else None, wp)
+    if mode == 'children-first':
+        # the top-level children listed first (sibling attributes let the walk step over whole subtrees, whose entries are then
+        # NOT in the per-unit cache while the unit's last entry is), then the full iteration
+        kids = ctx.drain(cu.get_top_DIE().iter_children())
+        ctx.check_eq('tree/%s/children-first/top-children' % sib, [k.offset for k in kids], [w['off'] for w in want if w['depth'] == 1 and not w['null']])
     dies = ctx.drain(cu.iter_DIEs())
     ctx.check_eq('tree/%s/count' % sib, len(dies), len(want))
     if len(dies) != len(want):
@@ -603,7 +608,7 @@ def _tree_instances(tier):
             for sib in sibs:
                 if sib != 'none' and not any(f for f in forest):
                     continue
-                for mode in ('iter', 'random-first', 'parent-first'):
+                for mode in ('iter', 'random-first', 'parent-first', 'children-first'):
                     if mode != 'iter' and _count(forest) not in (3, maxn):
                         continue
                     out.append(dict(env=e, forest=forest, sib=sib, mode=mode, pre=1 if sib == 'ref_addr' else 0))
@@ -620,7 +625,7 @@ def _tree_instances(tier):
             for sib in sibs:
                 if sib != 'none' and not any(f for f in forest):
                     continue
-                for mode in ('iter', 'random-first', 'parent-first'):
+                for mode in ('iter', 'random-first', 'parent-first', 'children-first'):
                     if mode != 'iter' and _count(forest) not in (3, maxn):
                         continue
                     out.append(dict(env=e, forest=forest, sib=sib, mode=mode, pre=1 if sib != 'ref4' else 0, tu=True))
